@@ -959,9 +959,17 @@ Section Ins.
      choice for its add_node (any value; only an admissible one has an effect), an insert_hugr with the mapping
      that names the choices for its copies.  Every statement below is for EVERY such oracle. *)
   Lemma WF_prefer pick (h : hugr) : WF h -> WF (prefer pick h).
-  Proof. destruct pick; auto. Qed.
+  Proof. intros (depth & H). exists depth. intros n d q. rewrite prefer_get. apply H. Qed.
+  Lemma abs_from_grow (l : list (option node_data)) k : forall i, abs_from (l ++ repeat None k) i = abs_from l i.
+  Proof.
+    induction l as [|[d|] r IH]; intros i; cbn [app abs_from]; [|now rewrite IH|apply IH].
+    revert i. induction k as [|k IHk]; intros i; cbn [repeat abs_from]; [reflexivity|apply IHk].
+  Qed.
   Lemma abs_prefer pick (h : hugr) : abs (prefer pick h) = abs h.
-  Proof. destruct pick; reflexivity. Qed.
+  Proof.
+    destruct pick as [f|]; [|reflexivity]. unfold prefer. destruct (Nat.ltb f (length (nodes h))); [reflexivity|].
+    unfold abs. cbn [nodes links root]. now rewrite abs_from_grow.
+  Qed.
   Fixpoint bguarded (h : hugr) (cs : list (bcmd Op Meta * ret)) : Prop :=
     match cs with
     | [] => True
